@@ -1,7 +1,10 @@
 //! C21 — batch inscribing produces exactly the inscriptions and locations it reports.
 //!
 //! case (see coq/Wallet/Batch.v run_C21):
-//!   mode n postage etching premine nP (value offset)*nP nS value*nS
+//!   mode n postage etching premine nP (value offset)*nP nS value*nS fund
+//!     fund 0: plenty of cardinals; 1/2/3: the first cardinal (the sat's output, 400 sat) cannot pay
+//!     and the next output is runic / inscribed / locked, a large cardinal follows; 4/5/6: the same
+//!     without the large cardinal -> the planner must refuse (obs [-3])
 //!     mode 0 same-sat, 1 satpoints, 2 separate-outputs, 3 shared-output
 //! obs  nOut values.. nPtr pointers.. (vout offset)*n  rune(0 | 1 vout)  nInputs commitInputIndex
 //!
@@ -35,6 +38,7 @@ pub struct Case {
   pub premine: bool,
   pub parents: Vec<(u64, u64)>,
   pub sats: Vec<u64>,
+  pub fund: u64,
 }
 
 impl Case {
@@ -49,6 +53,7 @@ impl Case {
     for v in &self.sats {
       l.push(*v);
     }
+    l.push(self.fund);
     l.done()
   }
   fn parse(l: &Line) -> Case {
@@ -62,7 +67,8 @@ impl Case {
     let parents = (0..np).map(|_| (c.u64(), c.u64())).collect();
     let ns = c.usize();
     let sats = (0..ns).map(|_| c.u64()).collect();
-    Case { mode, n, postage, etching, premine, parents, sats }
+    let fund = if c.at_end() { 0 } else { c.u64() };
+    Case { mode, n, postage, etching, premine, parents, sats, fund }
   }
 }
 
@@ -75,8 +81,9 @@ fn script(i: u8) -> ScriptBuf {
 pub fn run(line: &Line) -> Outcome {
   let case = Case::parse(line);
   let cat = format!(
-    "mode{}/n{}/p{}/{}",
+    "mode{}/f{}/n{}/p{}/{}",
     case.mode,
+    case.fund,
     case.n.min(3),
     case.parents.len().min(2),
     if case.etching {
@@ -91,6 +98,10 @@ pub fn run(line: &Line) -> Outcome {
   );
   guarded(&cat.clone(), move || match run_case(&case) {
     Ok((obs, oracle)) => Outcome { obs, oracle, cat },
+    // a wallet whose cardinal outputs (400 sat) cannot fund the batch must be refused
+    Err(e) if case.fund >= 4 && e.starts_with("planner:") => {
+      Outcome { obs: L::new().p(-3i64).done(), oracle: Ok(()), cat: format!("{cat}/refused") }
+    }
     Err(e) => Outcome {
       obs: L::new().p(-3i64).done(),
       oracle: Err(format!("planner or harness error: {e}")),
@@ -125,9 +136,18 @@ fn run_case(case: &Case) -> Result<(Line, Result<(), String>), String> {
     outputs.push(TxOut { value: Amount::from_sat(*v), script_pubkey: script(40 + i as u8) });
   }
   let first_cardinal = outputs.len();
-  for (i, v) in [30_000_000u64, 5_000, 777].iter().enumerate() {
+  // fund 0: [30M, 5000, 777] all cardinal
+  // fund 1..3: [400 cardinal, 200k runic/inscribed/locked, 30M cardinal, 100 cardinal]
+  // fund 4..6: [400 cardinal, 200k runic/inscribed/locked, 100 cardinal]
+  let funding: Vec<u64> = match case.fund {
+    0 => vec![30_000_000, 5_000, 777],
+    1..=3 => vec![400, 200_000, 30_000_000, 100],
+    _ => vec![400, 200_000, 100],
+  };
+  for (i, v) in funding.iter().enumerate() {
     outputs.push(TxOut { value: Amount::from_sat(*v), script_pubkey: script(80 + i as u8) });
   }
+  let encumbered: Option<usize> = if case.fund == 0 { None } else { Some(first_cardinal + 1) };
   let mut witness = Witness::new();
   if !case.parents.is_empty() {
     witness.push(builder.into_script().as_bytes());
@@ -161,9 +181,29 @@ fn run_case(case: &Case) -> Result<(Line, Result<(), String>), String> {
     wallet_inscriptions.entry(sp).or_default().push(parent_ids[j]);
     parents_arg.push((parent_ids[j], sp));
   }
-  // cardinal = neither a parent's output nor the output of a satpoint named by an entry
+  // the encumbered output is runic, inscribed or locked in the wallet state given to the planner
+  let mut runic: BTreeSet<OutPoint> = BTreeSet::new();
+  let mut locked: BTreeSet<OutPoint> = BTreeSet::new();
+  if let Some(e) = encumbered {
+    let o = OutPoint { txid: setup_txid, vout: e as u32 };
+    match (case.fund - 1) % 3 {
+      0 => {
+        runic.insert(o);
+      }
+      1 => {
+        wallet_inscriptions
+          .entry(SatPoint { outpoint: o, offset: 7 })
+          .or_default()
+          .push(InscriptionId { txid: setup_txid, index: 1000 });
+      }
+      _ => {
+        locked.insert(o);
+      }
+    }
+  }
+  // cardinal = not a parent's output, not the output of a satpoint named by an entry, not encumbered
   let cardinals: BTreeSet<OutPoint> = (0..outputs.len())
-    .filter(|i| *i >= first_sat_output && !(case.mode == 1 && *i < first_sat_output + case.n))
+    .filter(|i| *i >= first_sat_output && !(case.mode == 1 && *i < first_sat_output + case.n) && Some(*i) != encumbered)
     .map(|i| OutPoint { txid: setup_txid, vout: i as u32 })
     .collect();
 
@@ -231,7 +271,7 @@ fn run_case(case: &Case) -> Result<(Line, Result<(), String>), String> {
     // same-sat batches may name the sat to inscribe: a sat in the middle of the big cardinal
     // output, so that the commit transaction needs an alignment output and the commit output
     // is not output 0
-    satpoint: if case.mode == 0 && case.postage % 3 == 0 {
+    satpoint: if case.mode == 0 && case.postage % 3 == 0 && case.fund == 0 {
       Some(SatPoint { outpoint: OutPoint { txid: setup_txid, vout: first_cardinal as u32 }, offset: 1_000 + case.postage })
     } else {
       None
@@ -250,8 +290,8 @@ fn run_case(case: &Case) -> Result<(Line, Result<(), String>), String> {
     "ord",
     utxos.clone(),
     wallet_inscriptions.clone(),
-    BTreeSet::new(),
-    BTreeSet::new(),
+    locked.clone(),
+    runic.clone(),
     parents_arg,
     fee_rate,
   )
@@ -304,6 +344,9 @@ fn run_case(case: &Case) -> Result<(Line, Result<(), String>), String> {
     if res.reveal_tx.input.iter().filter(|i| i.previous_output.txid == commit_txid).count() != 1 {
       return Err("reveal does not spend exactly one commit output".into());
     }
+    // the reveal must be valid on a real node (the mock node does not verify scripts): the
+    // commit input is a taproot script-path spend whose signature covers all previous outputs
+    verify_reveal_spend(&res.reveal_tx, &res.commit_tx, &utxos)?;
     core.state().mempool.push(res.commit_tx.clone());
     core.mine_blocks(if case.etching { 6 } else { 1 });
     core.state().mempool.push(res.reveal_tx.clone());
@@ -368,13 +411,90 @@ fn run_case(case: &Case) -> Result<(Line, Result<(), String>), String> {
   Ok((l.done(), oracle))
 }
 
+/// Consensus validity of the reveal's commit input, checked directly: witness = [signature,
+/// reveal script, control block]; the control block must commit the script to the commit
+/// output's taproot key, and the signature must be a valid BIP-340 signature, by the key the
+/// script checks, of the BIP-341 script-spend sighash over the previous outputs in input order.
+fn verify_reveal_spend(
+  reveal: &Transaction,
+  commit: &Transaction,
+  utxos: &BTreeMap<OutPoint, TxOut>,
+) -> Result<(), String> {
+  use bitcoin::hashes::Hash;
+  use bitcoin::secp256k1::{schnorr, Message, Secp256k1, XOnlyPublicKey};
+  use bitcoin::sighash::{Prevouts, SighashCache};
+  use bitcoin::taproot::{ControlBlock, LeafVersion, TapLeafHash};
+  use bitcoin::{Script, TapSighashType};
+  let commit_txid = commit.compute_txid();
+  let mut prevouts: Vec<TxOut> = Vec::new();
+  let mut ci = None;
+  for (k, i) in reveal.input.iter().enumerate() {
+    if i.previous_output.txid == commit_txid {
+      ci = Some(k);
+      prevouts.push(
+        commit.output.get(i.previous_output.vout as usize).ok_or("reveal spends a missing commit output")?.clone(),
+      );
+    } else {
+      prevouts.push(
+        utxos.get(&i.previous_output).ok_or(format!("reveal spends {} which is not a wallet output", i.previous_output))?.clone(),
+      );
+      if !(i.witness.is_empty()) {
+        return Err(format!("reveal input {k} (a wallet output) already carries a witness"));
+      }
+    }
+  }
+  let ci = ci.ok_or("reveal does not spend the commit")?;
+  let w = &reveal.input[ci].witness;
+  if w.len() != 3 {
+    return Err(format!("commit input witness has {} elements", w.len()));
+  }
+  let (sig, script, control) = (w.nth(0).unwrap(), Script::from_bytes(w.nth(1).unwrap()), w.nth(2).unwrap());
+  let secp = Secp256k1::verification_only();
+  // the key the reveal script checks: <32-byte key> OP_CHECKSIG ...
+  let mut ins = script.instructions();
+  let key = match ins.next() {
+    Some(Ok(bitcoin::script::Instruction::PushBytes(b))) if b.len() == 32 => {
+      XOnlyPublicKey::from_slice(b.as_bytes()).map_err(|e| format!("reveal script key: {e}"))?
+    }
+    _ => return Err("reveal script does not start with a 32-byte key".into()),
+  };
+  match ins.next() {
+    Some(Ok(bitcoin::script::Instruction::Op(op))) if op == bitcoin::opcodes::all::OP_CHECKSIG => {}
+    _ => return Err("reveal script: key is not followed by OP_CHECKSIG".into()),
+  }
+  // control block commits the script to the commit output's key
+  let control = ControlBlock::decode(control).map_err(|e| format!("control block: {e}"))?;
+  let spk = &prevouts[ci].script_pubkey;
+  if !spk.is_p2tr() {
+    return Err("commit output is not taproot".into());
+  }
+  let output_key = XOnlyPublicKey::from_slice(&spk.as_bytes()[2..34]).map_err(|e| format!("commit output key: {e}"))?;
+  if !control.verify_taproot_commitment(&secp, output_key, script) {
+    return Err("the control block does not commit the reveal script to the commit output's key".into());
+  }
+  // signature over the script-spend sighash
+  let sighash = SighashCache::new(reveal)
+    .taproot_script_spend_signature_hash(
+      ci,
+      &Prevouts::All(&prevouts),
+      TapLeafHash::from_script(script, LeafVersion::TapScript),
+      TapSighashType::Default,
+    )
+    .map_err(|e| format!("sighash: {e}"))?;
+  let sig = schnorr::Signature::from_slice(sig).map_err(|e| format!("signature encoding ({} bytes): {e}", sig.len()))?;
+  secp
+    .verify_schnorr(&sig, &Message::from_digest(sighash.to_byte_array()), &key)
+    .map_err(|_| "the reveal's tapscript signature does not verify against the previous outputs in input order (the reveal could never be mined)".to_string())
+}
+
 pub fn gen(rng: &mut Rng, tier: &str) -> Vec<Line> {
-  let n_cases = if tier == "thorough" { 300 } else { 28 };
+  let n_cases = if tier == "thorough" { 300 } else { 32 };
   let mut v = Vec::new();
   for k in 0..n_cases {
     let mode = (k % 4) as u64;
     let n = *rng.pick(&[1usize, 1, 2, 3, 4, 6]);
-    let np = *rng.pick(&[0usize, 0, 1, 1, 2, 3]);
+    // satpoints mode always with parents in half of the batches, the other modes often with >= 2
+    let np = if mode == 1 { *rng.pick(&[1usize, 1, 2, 2, 3, 0]) } else { *rng.pick(&[0usize, 0, 1, 2, 2, 3]) };
     let parents: Vec<(u64, u64)> = (0..np)
       .map(|_| {
         let val = *rng.pick(&[546u64, 600, 10_000, 12_345, 330]);
@@ -383,11 +503,17 @@ pub fn gen(rng: &mut Rng, tier: &str) -> Vec<Line> {
       })
       .collect();
     let postage = *rng.pick(&[330u64, 546, 1_000, 10_000, 9_999]) + rng.below(3);
+    // wallet funding: every second batch has a first cardinal that cannot pay, next to a runic /
+    // inscribed / locked output; a quarter of those have no other cardinal (must be refused)
+    // (deterministic schedule, so that a quick run has every kind in every mode)
+    let idx = (k / 8) * 4 + k % 4;
+    let fund = if (k / 4) % 2 == 1 { 1 + (idx % 3) as u64 + if idx % 5 == 4 { 3 } else { 0 } } else { 0 };
+    let spare = if fund == 0 { rng.below(2) as usize } else { 0 };
     let sats: Vec<u64> =
-      if mode == 1 { (0..n + rng.below(2) as usize).map(|_| *rng.pick(&[546u64, 1_000, 10_000, 7_777])).collect() } else { Vec::new() };
+      if mode == 1 { (0..n + spare).map(|_| *rng.pick(&[546u64, 1_000, 10_000, 7_777])).collect() } else { Vec::new() };
     let etching = rng.chance(1, 3);
     let premine = etching && rng.chance(2, 3);
-    v.push(Case { mode, n, postage, etching, premine, parents, sats }.line());
+    v.push(Case { mode, n, postage, etching, premine, parents, sats, fund }.line());
   }
   v
 }
